@@ -729,3 +729,96 @@ pub fn tok_opts() -> BoxedStrategy<(bool, usize)> {
     )
         .boxed()
 }
+
+// ---------------------------------------------------------------------------------------------
+// Logical spec from definition files (used for the repository's own test resources)
+
+/// Interprets definition files with the strict reference parsers; `None` if they leave the
+/// plainly documented format.
+pub fn spec_from_files(lex: &str, matrix: &str, chardef: &str, unk: &str) -> Option<DictSpec> {
+    use crate::gen::csv::split_record;
+    let rdef = crate::refmodel::chardef::parse(chardef.as_bytes())?;
+    let ids = rdef.category_ids();
+    let mut cats: Vec<CatSpec> = vec![
+        CatSpec {
+            name: String::new(),
+            invoke: false,
+            group: false,
+            length: 0
+        };
+        ids.len()
+    ];
+    for c in &rdef.cats {
+        cats[ids[&c.name]] = CatSpec {
+            name: c.name.clone(),
+            invoke: c.invoke,
+            group: c.group,
+            length: c.length,
+        };
+    }
+    let ranges = rdef
+        .ranges
+        .iter()
+        .map(|(s, e, names)| RangeSpec {
+            start: *s,
+            end: *e,
+            cats: names.iter().map(|n| ids[n]).collect(),
+        })
+        .collect();
+    let row = |line: &str| -> Option<(String, u16, u16, i16, String)> {
+        // surface (possibly quoted), three numbers, raw tail
+        let cells = split_record(line);
+        if cells.len() < 5 {
+            return None;
+        }
+        let head = crate::gen::csv::render_cell(&cells[0], crate::gen::csv::QuoteStyle::Needed);
+        let rest = line.strip_prefix(&head).or_else(|| line.strip_prefix(&format!("\"{}\"", cells[0])))?;
+        let mut it = rest.strip_prefix(',')?.splitn(4, ',');
+        Some((cells[0].clone(), it.next()?.parse().ok()?, it.next()?.parse().ok()?, it.next()?.parse().ok()?, it.next()?.to_string()))
+    };
+    let mut lexrows = vec![];
+    for line in lex.lines().filter(|l| !l.is_empty()) {
+        let (surface, left, right, cost, feature) = row(line)?;
+        lexrows.push(LexRow {
+            surface,
+            left,
+            right,
+            cost,
+            feature,
+        });
+    }
+    let mut unkrows = vec![];
+    for line in unk.lines().filter(|l| !l.is_empty()) {
+        let (name, left, right, cost, feature) = row(line)?;
+        unkrows.push(UnkRow {
+            cat: *ids.get(&name)?,
+            left,
+            right,
+            cost,
+            feature,
+        });
+    }
+    let mut ml = matrix.lines();
+    let mut h = ml.next()?.split(' ');
+    let (nr, nl): (u16, u16) = (h.next()?.parse().ok()?, h.next()?.parse().ok()?);
+    let mut cells = vec![];
+    for line in ml.filter(|l| !l.is_empty()) {
+        let mut c = line.split(' ');
+        cells.push((c.next()?.parse().ok()?, c.next()?.parse().ok()?, c.next()?.parse().ok()?));
+    }
+    Some(DictSpec {
+        chardef: CharDef {
+            cats,
+            ranges,
+            style: 0,
+        },
+        unk: unkrows,
+        lex: lexrows,
+        conn: ConnSpec::Matrix(MatrixSpec {
+            num_right: nr,
+            num_left: nl,
+            cells,
+        }),
+        csv_style: 0,
+    })
+}
